@@ -243,13 +243,15 @@ func checkC07(c *Ctx) {
 	scopeRuns(c, p, c07Build, func(j *Job, r *proto.Result) { c07Judge(c, j, r) })
 	// second family: names that luahelper.json declares as provided from outside (IgnoreLists.tla)
 	c.streamRun("ignore_lists", tlc.Run{Module: "IgnoreLists", Workers: 2, Timeout: 10 * time.Minute,
-		Cfg: "INIT Init\nNEXT Next\nINVARIANTS BuiltInNeverReported Monotone Emit\nCHECK_DEADLOCK FALSE\n"}, p, 4,
+		Cfg: "INIT Init\nNEXT Next\nINVARIANTS BuiltInNeverReported Monotone PerDirectory CoreSeesAll Emit\nCHECK_DEADLOCK FALSE\n"}, p, 4,
 		func(id int, raw json.RawMessage) *Job {
 			var o struct {
-				Names     []string `json:"names"`
-				Exact     []string `json:"exact"`
-				Pats      []string `json:"pats"`
-				Undefined []int    `json:"undefined"`
+				Names     []string            `json:"names"`
+				Exact     []string            `json:"exact"`
+				Pats      []string            `json:"pats"`
+				Undefined []int               `json:"undefined"`
+				FileVars  map[string][]string `json:"filevars"`
+				UndefIn   map[string][]string `json:"undefin"`
 			}
 			if json.Unmarshal(raw, &o) != nil || len(o.Names) == 0 {
 				return nil
@@ -264,14 +266,30 @@ func checkC07(c *Ctx) {
 			if o.Pats == nil {
 				o.Pats = []string{}
 			}
-			cfg, _ := json.Marshal(map[string]interface{}{"ShowWarnFlag": 1, "IgnoreModules": o.Exact, "IgnoreWildcardModules": o.Pats})
+			fv := []map[string]interface{}{}
+			for _, d := range []string{"net/", "ui/"} {
+				if vs := o.FileVars[d]; len(vs) > 0 {
+					sort.Strings(vs)
+					fv = append(fv, map[string]interface{}{"File": d, "Vars": vs})
+				}
+			}
+			cfg, _ := json.Marshal(map[string]interface{}{"ShowWarnFlag": 1, "IgnoreModules": o.Exact, "IgnoreWildcardModules": o.Pats, "IgnoreFileVars": fv})
 			text := sb.String()
-			pc := &proto.Case{ID: id, Files: map[string]string{"main.lua": text, "luahelper.json": string(cfg)}, Init: json.RawMessage(allOnLocal)}
+			dirText := "print(NetEnv)\nprint(UiEnv)\nprint(Shared)\n"
+			pc := &proto.Case{ID: id, Files: map[string]string{"main.lua": text, "luahelper.json": string(cfg),
+				"net/client.lua": dirText, "ui/panel.lua": dirText, "core/boot.lua": dirText}, Init: json.RawMessage(allOnLocal)}
 			want := map[int]bool{}
 			for _, i := range o.Undefined {
 				want[i-1] = true // line = position in Names
 			}
-			return &Job{PC: pc, Data: &ignData{names: o.Names, want: want, cfg: string(cfg)}}
+			wantIn := map[string]map[string]bool{}
+			for d, f := range map[string]string{"net/": "net/client.lua", "ui/": "ui/panel.lua", "core/": "core/boot.lua"} {
+				wantIn[f] = map[string]bool{}
+				for _, n := range o.UndefIn[d] {
+					wantIn[f][n] = true
+				}
+			}
+			return &Job{PC: pc, Data: &ignData{names: o.Names, want: want, cfg: string(cfg), wantIn: wantIn}}
 		},
 		func(j *Job, res *proto.Result) {
 			d := j.Data.(*ignData)
@@ -297,6 +315,22 @@ func checkC07(c *Ctx) {
 					prob = append(prob, n+" is reported undefined although it is a built-in or configured-ignored name")
 				}
 			}
+			for f, w := range d.wantIn {
+				gotIn := map[string]bool{}
+				for _, x := range view[f] {
+					if x.Type == 2 || x.Type == 3 {
+						gotIn[[]string{"NetEnv", "UiEnv", "Shared"}[x.SL%3]] = true
+					}
+				}
+				for _, n := range []string{"NetEnv", "UiEnv", "Shared"} {
+					if w[n] && !gotIn[n] {
+						prob = append(prob, n+" is read in "+f+", unbound and not configured-ignored for that file, but is not reported undefined")
+					}
+					if !w[n] && gotIn[n] {
+						prob = append(prob, n+" is reported undefined in "+f+" although IgnoreFileVars lists it for that directory")
+					}
+				}
+			}
 			if len(prob) == 0 {
 				return
 			}
@@ -317,9 +351,10 @@ func checkC07(c *Ctx) {
 
 // ignData: one IgnoreLists.tla configuration.
 type ignData struct {
-	names []string
-	want  map[int]bool
-	cfg   string
+	names  []string
+	want   map[int]bool
+	cfg    string
+	wantIn map[string]map[string]bool // file -> names that must be reported there (IgnoreFileVars)
 }
 
 // occAfter: a comes textually after b in the same file.
